@@ -1533,3 +1533,10 @@ _v("c18-z-edge-space-by-helper", "C18", "refactor", None, [
 _v("c18-z-edge-space-by-helper-short", "C18", "mutant", "R18.b",
    [VARIANTS[-1]["edits"][0], (VARIANTS[-1]["edits"][1][0], VARIANTS[-1]["edits"][1][1], VARIANTS[-1]["edits"][1][2].replace("fill_value=num_nodes + 1", "fill_value=num_nodes - 1"))],
    "the helper's upper bound excludes the last node ids")
+_EQ_OLD = "        return (\n            self.operation == value.operation\n            and self.start_time == value.start_time\n            and self.machine_id == value.machine_id\n        )\n"
+_v("c15-z-eq-through-id-key", "C15", "mutant", "R15.a", [
+    (SOP, _EQ_OLD, "        return self.sort_key() == value.sort_key()\n\n    def sort_key(self) -> tuple[int, int, int]:\n        return (self.start_time, self.machine_id, self.operation.operation_id)\n\n    def __hash__(self) -> int:\n        return hash(self.sort_key())\n"),
+], "equality through a key that identifies the operation by its id only")
+_v("c15-z-eq-through-full-key", "C15", "refactor", None, [
+    (SOP, _EQ_OLD, "        return self._key() == value._key()\n\n    def _key(self):\n        return (self.operation, self.start_time, self.machine_id)\n\n    def __hash__(self) -> int:\n        return hash(self._key())\n"),
+], "equality and hash through a key of the plain content fields")
